@@ -618,6 +618,13 @@ class _VersionIndependentUnmarshaller:
             version_triple=self.version_tuple,
         )
 
+        if self.version_tuple >= (3, 11):
+            # Keep the merged "fast locals" table as stored in the file. It
+            # has information (CO_FAST_HIDDEN) that co_varnames, co_cellvars
+            # and co_freevars do not have; xdis.marsh writes it back.
+            code.co_localsplusnames = co_localsplusnames
+            code.co_localspluskinds = co_localspluskinds
+
         self.code_objects[str(code)] = code
         ret = code
         return self.r_ref_insert(ret, i)
